@@ -7,7 +7,8 @@ import (
 
 var mutTokens = []string{":", "/", "//", "?", "#", "@", "[", "]", "\\", "|", "%", ".", "..", "%2e", "%2E", " ", "\t", "\n", "\x00", "::", ":/", "://",
 	"0x", "0X", "xn--", "C|", "C:", "localhost", "file:", "http:", "https:", "ws:", "a:", "0", "1", "255", "256", "65535", "65536", "4294967295", "-", "+", "=", "&", "'", "\"", "<", ">", "`", "{", "}", "^", "~", "_",
-	"%41", "%00", "%25", "%2f", "%5C", "%3a", "%40", "%23", "%3F", "%ff", "%c3%a9", "%", "%4", "é", "ß", "🌈", "≠", "\u00ad", "ａ", "．", "。", "\xff", "\xc3", "\xed\xa0\x80", "\r", "\x1f", "\x7f", "/.", "/..", "/./", "/../", "//.", ";", ",", "!", "$", "*", "(", ")"}
+	"%41", "%00", "%25", "%2f", "%5C", "%3a", "%40", "%23", "%3F", "%ff", "%c3%a9", "%", "%4", "é", "ß", "🌈", "≠", "\u00ad", "ａ", "．", "。", "\xff", "\xc3", "\xed\xa0\x80", "\r", "\x1f", "\x7f", "/.", "/..", "/./", "/../", "//.", ";", ",", "!", "$", "*", "(", ")",
+	":~:", "#!", "##", "%23%23", "%25eth0", "%2525", "%252e", "%27", "%EF%BB%BF", "\ufeff", "127.1", "0x7f.1", "2130706433", "16777216", "::ffff:", "[::1]", "postgres:", "data:", "blob:", "..;", "@@"}
 
 // Mutate applies 1-4 random edits to s (W-mutate).
 func Mutate(r *rand.Rand, s string) string {
